@@ -7,6 +7,7 @@ import (
 	"io/ioutil"
 	"math/rand"
 	"os"
+	"reflect"
 	"sort"
 	"strings"
 	"testing"
@@ -46,7 +47,7 @@ func i32(n int) *int32 { v := int32(n); return &v }
 
 func mkSts(name string, replicas int, templates []string, lbl string, updated int) *appsv1.StatefulSet {
 	s := &appsv1.StatefulSet{
-		ObjectMeta: metav1.ObjectMeta{Name: name, Namespace: ns, Labels: map[string]string{"app.kubernetes.io/name": "prometheus"}},
+		ObjectMeta: metav1.ObjectMeta{Name: name, Namespace: ns, Generation: 4, Labels: map[string]string{"app.kubernetes.io/name": "prometheus"}},
 		Spec:       appsv1.StatefulSetSpec{Replicas: i32(replicas), Selector: &metav1.LabelSelector{MatchLabels: map[string]string{"sts": lbl}}},
 		Status:     appsv1.StatefulSetStatus{Replicas: int32(replicas), UpdatedReplicas: int32(updated), ReadyReplicas: int32(replicas)},
 	}
@@ -274,6 +275,8 @@ type listCase struct {
 	Rolling  bool      `json:"rolling"` // one of them is mid rolling update
 	// RollBack: that roll-out is being undone (update revision == current revision again, updatedReplicas < replicas)
 	RollBack bool `json:"rollBack,omitempty"`
+	// HostNetwork: the pods run with spec.hostNetwork (a pod without an address of its own is still not reachable)
+	HostNetwork bool `json:"hostNetwork,omitempty"`
 	// OnDelete: the StatefulSet that is being updated uses the OnDelete update strategy (pods are replaced by hand)
 	OnDelete bool `json:"onDelete,omitempty"`
 	// HTTP: the real REST client against the harness' API server (apiserver_test.go) instead of the fake clientset:
@@ -309,6 +312,9 @@ func runList(c *listCase) []vkit.Violation {
 	mkPod := func(sts string, ord int, ip string) corev1.Pod {
 		p := corev1.Pod{ObjectMeta: metav1.ObjectMeta{Name: fmt.Sprintf("%s-%d", sts, ord), Namespace: ns, Labels: map[string]string{"sts": sts}}}
 		p.Status.PodIP = ip
+		// every pod that has been bound to a node has the node's address, long before it has one of its own
+		p.Status.HostIP = fmt.Sprintf("192.168.0.%d", 10+ord%200)
+		p.Spec.HostNetwork = c.HostNetwork
 		st := corev1.ConditionFalse
 		if ip != "" {
 			st = corev1.ConditionTrue
@@ -490,6 +496,7 @@ func TestC18List(t *testing.T) {
 		c.Rolling = rapid.Bool().Draw(t, "rolling")
 		c.OnDelete = c.Rolling && rapid.IntRange(0, 2).Draw(t, "onDelete") == 0
 		c.RollBack = c.Rolling && rapid.IntRange(0, 2).Draw(t, "rollBack") == 0
+		c.HostNetwork = rapid.IntRange(0, 2).Draw(t, "hostNetwork") == 0
 		vs := rec.Filter(runList(c))
 		b, _ := json.Marshal(c)
 		cls := []string{"list", "list-order/" + orderKind}
@@ -501,6 +508,14 @@ func TestC18List(t *testing.T) {
 		}
 		if gapAt >= 0 {
 			cls = append(cls, "list/hole-in-the-ordinals")
+		}
+		if c.HostNetwork {
+			for _, p := range c.Pods {
+				if p.IP == "" {
+					cls = append(cls, "list/host-network-pod-scheduled-but-without-address")
+					break
+				}
+			}
 		}
 		if c.HTTP {
 			cls = append(cls, "list/real-rest-client-against-an-api-server")
@@ -617,6 +632,19 @@ func runSeq(c *seqCase) []vkit.Violation {
 	})
 	conflictTo := -1
 	cli.PrependReactor("update", "statefulsets", func(a k8stesting.Action) (bool, runtime.Object, error) {
+		// what an API server does with metadata.generation (the fake object tracker does not): it moves with every
+		// change of the spec, whoever makes it
+		if ua, ok := a.(k8stesting.UpdateAction); ok {
+			if upd, ok := ua.GetObject().(*appsv1.StatefulSet); ok {
+				if cur, err := cli.Tracker().Get(appsv1.SchemeGroupVersion.WithResource("statefulsets"), ns, upd.Name); err == nil {
+					old := cur.(*appsv1.StatefulSet)
+					upd.Generation = old.Generation
+					if !reflect.DeepEqual(old.Spec, upd.Spec) {
+						upd.Generation = old.Generation + 1
+					}
+				}
+			}
+		}
 		if conflictTo < 0 {
 			return false, nil, nil
 		}
@@ -665,6 +693,14 @@ func runSeq(c *seqCase) []vkit.Violation {
 			continue
 		}
 		switch op.Kind {
+		case "edit":
+			// somebody edits a setting that has nothing to do with the scale
+			set, _ := cli.AppsV1().StatefulSets(ns).Get(context.TODO(), "set", metav1.GetOptions{})
+			set.Spec.RevisionHistoryLimit = i32(op.N + 1)
+			if _, err := cli.AppsV1().StatefulSets(ns).Update(context.TODO(), set, metav1.UpdateOptions{}); err != nil {
+				add("C18/harness", "external edit: %v", err)
+				return vs
+			}
 		case "external":
 			set, _ := cli.AppsV1().StatefulSets(ns).Get(context.TODO(), "set", metav1.GetOptions{})
 			set.Spec.Replicas = i32(op.N)
@@ -714,8 +750,11 @@ func TestC18Seq(t *testing.T) {
 		back := false
 		for i := 0; i < n; i++ {
 			op := seqOp{Kind: "scale", N: rapid.IntRange(0, 8).Draw(t, fmt.Sprintf("n%d", i))}
-			if rapid.IntRange(0, 3).Draw(t, fmt.Sprintf("ext%d", i)) == 0 {
+			switch rapid.IntRange(0, 7).Draw(t, fmt.Sprintf("ext%d", i)) {
+			case 0, 1:
 				op.Kind = "external"
+			case 2:
+				op.Kind = "edit"
 			}
 			if op.Kind == "scale" && rapid.IntRange(0, 3).Draw(t, fmt.Sprintf("failDelete%d", i)) == 0 {
 				op.FailDelete = true
@@ -740,6 +779,12 @@ func TestC18Seq(t *testing.T) {
 			}
 			if op.ConflictTo != nil {
 				cls = append(cls, "sequence/update-conflicts-with-a-concurrent-scale-change")
+				break
+			}
+		}
+		for i, op := range c.Ops {
+			if (op.Kind == "edit" || op.Kind == "external") && i+1 < len(c.Ops) && c.Ops[i+1].Kind == "scale" {
+				cls = append(cls, "sequence/spec-written-by-somebody-else-before-a-scale-change")
 				break
 			}
 		}
